@@ -44,12 +44,12 @@ CHECKS = {
    note="instance data concrete (dyadic family stated in evidence.bounds); picos' own expression evaluation trusted for extraction; textbook strong duality and the conic solver trusted; z3 5.1.0",
    text="Per instance of the stated family and each of the four strategy/formulation combinations, the captured program equals the textbook min-error / unambiguous "
         "primal or dual program (objective, every constraint, sense) for all values of the decision variables; primal/dual agreement reduces to that plus textbook duality. "
-        "to_density_matrix / Gram-matrix glue proved for symbolic vectors."),
+        "to_density_matrix / Gram-matrix glue proved for symbolic vectors. The captured min-error primal and dual are additionally proved to be a Lagrangian pair (T2, both captured from the real code); the operators the real solver returns are checked to be a POVM attaining the returned value on three instances (known finding: the dual form returns conjugated operators)."),
  "C11": dict(engine="sdpcap", category="translation_validation", design_ref="DESIGN.md §3 C11, §2.2",
    technique="capture of the picos program built by the real code, exact affine extraction, z3 proof of equality with the textbook program for all decision-variable values, numeric replay; symbolic execution of the glue with the solve stubbed",
    note="instance data concrete (small-denominator rational family stated in evidence.bounds); picos' own evaluation trusted for extraction; textbook strong duality and the conic solver trusted; z3 5.1.0",
    text="Per instance and formulation the captured exclusion program equals the textbook program (min-error primal/dual, unambiguous primal/dual) for all decision-variable values; "
-        "is_antidistinguishable / common_quantum_overlap proved to be isclose(value,0) / value of the all-ones-prior dual program; trine and PBR constructors equal their closed forms."),
+        "is_antidistinguishable / common_quantum_overlap proved to be isclose(value,0) / value of the all-ones-prior dual program; trine and PBR constructors equal their closed forms. The captured min-error primal and dual are additionally proved to be a Lagrangian pair (T2); the returned operators are checked to attain the returned value (known finding for the dual form)."),
  "C12": dict(engine="sdpcap", category="translation_validation", design_ref="DESIGN.md §3 C12, §2.2",
    technique="capture of the picos / cvxpy program built by the real code, exact affine extraction, z3 proof of equality with the textbook program for all decision-variable values, numeric replay; symbolic execution for the caller's-list clause",
    note="instance data concrete (dyadic family in evidence.bounds); picos / cvxpy evaluation trusted for extraction; textbook duality and conic solvers trusted; z3 5.1.0",
@@ -61,15 +61,15 @@ CHECKS = {
    note="instance data concrete (dyadic Choi matrices, family in evidence.bounds); library evaluation trusted for extraction; the SDP characterisations (Watrous; Katariya-Wilde) are taken as the definitions; conic solvers and LAPACK norms trusted; z3 5.1.0",
    text="Per instance: the cb-trace-norm program equals Watrous' SDP; diamond distance and cb spectral norm are that program for J1-J2 and for the oracle's own dual map; the channel-fidelity "
         "program equals the definition's SDP for local dimension 2, 3, 5 (4, 6 thorough). Shortcut branches on a symbolic CP Choi matrix: channel => 1, CP non-TP => operator norm of Phi*(I) "
-        "(the latter is a recorded known finding: the code returns the trace norm)."),
+        "(the latter is a recorded known finding: the code returns the trace norm). Channel fidelity of separability: product-state certificate on the captured program (k = 1, 2, unequal dimensions, repeated call with the same list)."),
  "C13": dict(engine="symnp", category="other", design_ref="DESIGN.md §3 C13", technique=E1 + "; sqrtm / nuclear norm / eigenvalue kernels uninterpreted (congruence)", note=NOTE_E1 + KERN,
    text="For symbolic density operators rho = AA^dagger/Tr (all rank pairs, real and complex, d=2 quick / 3 thorough) the value returned by fidelity, trace_distance, hilbert_schmidt, "
         "hilbert_schmidt_inner_product, helstrom_holevo, bures_distance, bures_angle, sub_fidelity, matsumoto_fidelity equals the documented formula with each kernel applied to an argument "
-        "proved entry-wise equal; non-density inputs are rejected on every path. hilbert_schmidt's spectral-norm formula is a recorded known finding."),
+        "proved entry-wise equal; non-density inputs are rejected on every path. hilbert_schmidt's spectral-norm formula is a recorded known finding. Fidelity of separability: the captured picos program of a product state with unequal dimensions admits the product extension with value 1 (T3 certificate)."),
  "C14": dict(engine="symnp", category="other", design_ref="DESIGN.md §3 C14", technique=E1 + "; svd / nuclear norm / rank / eigenvalue kernels uninterpreted, svd contract for the Schmidt decomposition", note=NOTE_E1 + KERN,
    text="negativity / log_negativity = stated function of the nuclear-norm kernel of the oracle's own partial transpose (vector and density input, dim list/int/omitted); Schmidt decomposition: "
         "the SVD argument is the amplitude matrix and, under the svd contract, the factors rebuild the state (unequal local dims); schmidt_rank / sk_vector_norm / is_product arguments; "
-        "l1 coherence, purity, entropy, concurrence, entanglement of formation (pure branch) as formulas of the right kernel arguments."),
+        "l1 coherence, purity, entropy, concurrence, entanglement of formation (pure branch) as formulas of the right kernel arguments. sk_operator_norm: the returned bounds are compared, by QF_NRA queries over all coefficient vectors, with the values attained on explicit families of Schmidt-rank-<=k vectors (11 operators)."),
  "C16": dict(engine="symnp", category="other", design_ref="DESIGN.md §3 C16", technique=E1 + "; eigenvalue / rank / Cholesky / null-space kernels uninterpreted with contracts", note=NOTE_E1 + KERN,
    text="Each tolerance predicate: residuals within atol/2 => True, beyond 2(atol+rtol*magnitude) => False, exact-by-construction => True, invariance under the property-preserving "
         "transformations; exact-equivalence predicates as iff formulas; kernel predicates as the stated function of the right kernel argument; vec/unvec, vec(AXB), tensor associativity and powers, "
@@ -77,7 +77,7 @@ CHECKS = {
  "C18": dict(engine="symnp", category="other", design_ref="DESIGN.md §3 C18", technique=E1 + " with a symbolic test vector; CrossHair (symbolic execution + z3) for unique_perms; complete enumeration of the finite spaces (perm_sign)", note=NOTE_E1 + "; projector entries lifted to exact k/p! (|err|<1e-12); orth kernel checked on the concrete output; CrossHair per-condition timeout",
    text="Symmetric / antisymmetric projectors for every (d,p) in the bound: idempotent, Hermitian, equal to the (signed) average of the oracle's own permutation maps, fixed / sign-flipped by every "
         "generator (all permutations in thorough), mutually orthogonal, summing to the identity for p=2, exact trace = binomial; isometry forms; perm_sign over all permutations of <=6 elements (enumeration); "
-        "unique_perms confirmed over all paths by CrossHair for len<=3 (<=5 thorough); perfect_matchings with symbolic pairwise-distinct labels."),
+        "unique_perms confirmed over all paths by CrossHair for len<=3 (<=5 thorough); perfect_matchings with symbolic pairwise-distinct labels. unique_perms call histories (abandoned / interleaved enumerations) under a second CrossHair contract with translator validation of CrossHair's interpreter model."),
  "C19": dict(engine="symnp", category="other", design_ref="DESIGN.md §3 C19", technique=E1 + "; randomness replaced by a recording generator whose draws are unconstrained solver variables; qr / svd / eigh / fractional-power kernels with contracts", note=NOTE_E1 + KERN + "; numpy's contract for seeded generators (same seed => same stream) trusted",
    text="Provenance: every draw of every toqito.rand function comes from one default_rng(seed) built from its own seed argument and nothing touches the global state. Validity for arbitrary draws: density "
         "matrices as HH^dagger/Tr of a dim x k factor, unitaries / bases under the QR contract, PSD operators, state vectors as normalised sums of k product terms, POVMs summing to the identity, circulant Gram matrices; "
@@ -87,7 +87,7 @@ CHECKS = {
    note=NOTE_E1 + "; cvxpy evaluation trusted for extraction; v v^T and principal submatrices of PSD matrices are PSD and traces of PSD matrices are >= 0 (mathematical facts used by the certificates); the conic solver returns the optimum of the program it is handed",
    text="Classical value = max over all pairs of answer functions for every prob/pred tensor of the enumerated shapes (all entries symbolic), game object unchanged; product and BCS constructors; "
         "for every game of the listed shapes: every deterministic strategy is a feasible point of the real NPA program with its own value (classical <= NPA_k, k in 1,'1+ab',2), higher-level equalities "
-        "imply lower-level ones (NPA monotone in k), NPA constraints imply a non-signalling box and nonsignaling_value's program is the LP over such boxes (NPA <= NS <= 1); see-saw programs are the textbook POVM optimisations."),
+        "imply lower-level ones (NPA monotone in k), NPA constraints imply a non-signalling box and nonsignaling_value's program is the LP over such boxes (NPA <= NS <= 1); see-saw programs are the textbook POVM optimisations. Large games (512..2048 enumerated strategies, both the single-core loop and the multiprocessing branch): the dispatch of strategy indices is executed with process_iteration uninterpreted and the pool stubbed, z3 decides that the result is the maximum over every index; NPA / NS programs are also captured from an object that already answered classical_value()."),
  "C17": dict(engine="symnp", category="other", design_ref="DESIGN.md §3 C17", technique=E1 + "; parameter-free constructors executed over exact algebraic numbers (sqrt / roots of unity as symbols with rewriting), float-lifted fallback where the code leaves exact arithmetic",
    note=NOTE_E1 + "; 'float-lifted' obligations (named in their cfg) compare exact binary rationals of the returned doubles within 1e-9; eigen-certificates use concrete projectors built in the harness",
    text="Parameterised constructors with symbolic parameters equal their closed forms (Werner scalar and list forms, isotropic, Horodecki, Gisin, Breuer, chessboard, GHZ / W coefficient forms); PPT thresholds of Werner / isotropic / "
@@ -98,13 +98,13 @@ CHECKS = {
    note=NOTE_E1 + "; cvxpy evaluation trusted for extraction; instance data of the captured programs is concrete (dyadic); the conic solver is trusted",
    text="XOR game: converted predicate is [f = a xor b]; classical value = max over +-1 assignments for every 0/1 predicate of the enumerated shapes and every distribution (symbolic), equal between the XOR game and its conversion; "
         "constructor rejects exactly invalid distributions; quantum_value = (dual optimum / 4 + 1/2)^reps and its program is Tsirelson's dual SDP; bell_inequality_max's program (m = 2, +-1 and 0/1 outcomes, marginal terms) has the stated "
-        "trace / PSD / PPT constraints and the Bell-operator objective rebuilt from the oracle's own index maps."),
+        "trace / PSD / PPT constraints and the Bell-operator objective rebuilt from the oracle's own index maps. NPA level-1 certificates are run on the games XORGame.to_nonlocal_game() returns for rectangular question sets; the converted object is queried twice."),
  "C09": dict(engine="symnp + sdpcap", category="translation_validation", design_ref="DESIGN.md §3 C09, §2.2",
    technique="capture of every cvxpy program built by the real code, exact affine extraction, z3 proofs (T1 definition match, T2 adjoint pairing, T3 embedding certificates with answer functions and referee state as symbols); symbolic execution of unentangled_value and of the product / cloning-operator glue",
    note="instance data of captured programs concrete (dyadic); cvxpy evaluation trusted for extraction; rho (x) v v^T is PSD for rho >= 0; strong duality and the conic solver trusted; lambda_max as uninterpreted LAPACK kernel; z3 5.1.0",
    text="Unentangled value = max over all pairs of answer functions of lambda_max (all entries symbolic); every unentangled strategy is a feasible point of the real NPA-with-referee program with its own value (unentangled <= NPA_k), "
         "NPA constraints imply the non-signalling assemblage conditions and nonsignaling_value's program is the textbook assemblage program (NPA_k <= NS); hedging and cloning primal / dual programs equal the textbook programs and the dual's embedding "
-        "is the adjoint of the primal's partial trace (so they are a dual pair), real and complex instances, 1 and 2 repetitions."),
+        "is the adjoint of the primal's partial trace (so they are a dual pair), real and complex instances, 1 and 2 repetitions. The hedging programs are also captured after an earlier call on the same object (all ordered pairs of methods); the cloning primal/dual pair is checked as a Lagrangian pair (T2) for one and two repetitions."),
  "C15": dict(engine="symnp", category="other", design_ref="DESIGN.md §3 C15", technique=E1 + "; all LAPACK kernels uninterpreted; path exploration of the is_separable cascade; concrete-instance replays for the branches beyond the symbolic fragment",
    note=NOTE_E1 + KERN + "; beyond the spectrum sort of is_separable (argsort / orth / SDP) only a stated deterministic family of concrete product mixtures is run through the real code (labelled concrete-instance in the evidence)",
    text="is_ppt / is_npt verdict = 'every value of the eigenvalue kernel on the oracle's own partial transpose is >= -tol' for either party, dims 2x2..3x2 (3x3, 2x4 thorough), dim as list / int / omitted, tol symbolic; "
@@ -120,7 +120,9 @@ ENGINES = [
  {"name": "sdpcap", "path": "sdpcap/", "serves_properties": [k for k, v in CHECKS.items() if "sdpcap" in v["engine"]],
   "kind_free_text": "E2: capture of the cvxpy/picos program the real code builds, exact affine extraction on a basis, z3 obligations T1/T2/T3"},
 ]
-NOTES = ("fix: commits in /repo: cb7d15f, 497f2e2 (C01), 03de9a5, c7b010c (C06), b47dfd5 (C10), 897b7c3 (C11), cb4fb7c (C12), 73fd273, 0d7cc36 (C20), fbaafd8 (C13), c89db21, 7c812ba (C14), 4335272, b792854, 75fd335 (C16), b37e413, 80f67c2, 99d5db9 (C18), c68bb85 (C19), 1c22b69 (C07), 18fb193, 1b8446a, 5eb1a03, 61eccb4 (C17), cfb1318, 94fc814, 4788479, bd219c5, 4a6829e (C09), a6b6722, 30dff47, e89aa03, d3d1cf2, 5983140 + eigvals fix (C15); see known_findings.json 'fixed'. "
+import subprocess as _sp
+_fix = _sp.run("git -C /repo log --format=%h --grep=^fix: --reverse", shell=True, capture_output=True, text=True).stdout.split()
+NOTES = (f"{len(_fix)} `fix:` commits in /repo (oldest first): " + ", ".join(_fix) + "; what each repaired is listed in known_findings.json 'fixed' and DESIGN.md section 5. "
          "Exit codes: 0 held / 1 VIOLATION (reproduced on the real code) / 2 harness error.")
 
 checks = []
